@@ -419,7 +419,7 @@ func (group *Group) broadcastByRtmpMsg(msg base.RtmpMsg) {
 			group.rtmpGopCache.SetMetadata(lazyRtmpChunkDivider.GetEnsureWithSdf(), lazyRtmpChunkDivider.GetEnsureWithoutSdf())
 		}
 	}
-	if group.config.HttpflvConfig.Enable {
+	if group.config.HttpflvConfig.Enable || group.config.HttpflvConfig.EnableHttps {
 		if !group.httpflvGopCache.Feed(msg, lazyRtmpMsg2FlvTag.GetEnsureWithoutSdf()) {
 			Log.Warnf("[%s] over frame number limit for a single gop in http flv cache.", group.UniqueKey)
 		}
